@@ -113,7 +113,11 @@ def run_harness(cx, label, setup, items):
 
 def _q_close(a, b):
     if a["unit"] != b["unit"]:
-        return False
+        # another unit of the same dimension (a re-associated product may pick cm² instead of m²): the same quantity
+        if sorted(a["siunit"]) != sorted(b["siunit"]):
+            return False
+        x, y = float(a["si"]), float(b["si"])
+        return x == y or abs(x - y) <= REL_TOL * max(abs(x), abs(y))
     x, y = float(a["num"]), float(b["num"])
     if x == y or (x != x and y != y):
         return True
@@ -567,8 +571,9 @@ def run(tier, seed):
         "numeric literals of the generated inputs are exactly representable in the echo's 6 significant digits (2, 3, 5, 8, 200); "
         "the echo of other literals (1.23456789 -> 1.23457) changes the value and is outside the property as stated",
         "a × (b × c) and a + (b + c) are echoed as a × b × c and a + b + c on purpose (the repository's tests pin it): the round trip is "
-        "stated up to this re-association; values of such cases are compared with relative tolerance %g, and the echo of the echo is "
-        "compared with the echo of the re-associated tree" % REL_TOL,
+        "stated up to this re-association; values of such cases are compared with relative tolerance %g (as quantities: the unit of a "
+        "re-associated product may be another one of the same dimension), and the echo of the echo is compared with the echo of the "
+        "re-associated tree" % REL_TOL,
         "decorators of let and fn definitions (@name, @description, @url, @example) are not echoed at all; this loss of metadata is "
         "not judged (type, value and behaviour of the definition are)",
         "date/time expressions, typed holes, `use`, and numbers in non-decimal notation are not generated"]
